@@ -25,11 +25,14 @@ Definition tag_of (cmd : str) : tag :=
 Definition rcpt_named (args : str) : str :=
   match parse_rcpt_to args with Some r => r | None => args end.
 
-(** a final reply for recipient [r]: 250 naming r, or any 4xx/5xx refusal *)
+(** a final reply for recipient [r]: 250 naming r, or a 4xx/5xx refusal that,
+    if it names a mailbox at all ("<...>"), names r: the k-th reply is about
+    the k-th accepted recipient *)
 Definition final_reply (r : str) (rp : reply) : bool :=
   let '(code, text) := rp in
-  if N.eqb code 250 then contains text (S_ "<" ++ r ++ S_ ">")
-  else (N.leb 400 code && N.ltb code 600).
+  let names_r := contains text (S_ "<" ++ r ++ S_ ">") in
+  if N.eqb code 250 then names_r
+  else (N.leb 400 code && N.ltb code 600) && (names_r || negb (contains_byte text "<"%char)).
 
 Fixpoint take_finals (rs : list str) (reps : list reply) : option (list ev * list reply) :=
   match rs with
